@@ -369,7 +369,19 @@ Config sanitize_config(Config config) {
 }
 
 bool validate_shards(const protocol::Manifest& manifest) {
-    return manifest.threshold > 0 && manifest.shards.size() >= manifest.threshold;
+    if (manifest.threshold == 0 || manifest.shards.size() < manifest.threshold) {
+        return false;
+    }
+    // Shamir reconstruction interpolates over the share indices: two shares with
+    // the same index make it divide by zero (and throw) on whichever thread runs it.
+    std::array<bool, 256> seen{};
+    for (const auto& shard : manifest.shards) {
+        if (seen[shard.index]) {
+            return false;
+        }
+        seen[shard.index] = true;
+    }
+    return true;
 }
 
 std::optional<std::pair<std::string, std::uint16_t>> parse_endpoint(const std::string& address) {
